@@ -1,0 +1,198 @@
+//! Verification instrumentation for the command line tool (cargo feature `verif-hooks`).
+//!
+//! * [`SchedAtomicI32`]: an `AtomicI32` whose accesses are schedule points. With
+//!   `STYLUA_VERIF_SCHED=<label>,<label>,...` an access blocks until its label is at the head of
+//!   the remaining order (labels are `<thread>:<op>`, thread = `main` or `w`, op = `load`,
+//!   `store:<v>`, `max:<v>`, `swap:<v>`, `cas:<a>:<b>`, `or:<v>`, `add:<v>`). Accesses whose label is not in the
+//!   remaining order pass straight through. A wait that lasts longer than
+//!   `STYLUA_VERIF_SCHED_TIMEOUT_MS` (default 1000) abandons the order and is reported on
+//!   stderr as `VERIF-SCHED-INFEASIBLE`. With `STYLUA_VERIF_SCHED_LOG=<file>` every access is
+//!   appended to the file (label and value seen/written), in the order they really happened.
+//! * [`fault_point`]: `STYLUA_VERIF_FAULT=<file name>=<kind>,...` with kind `panic`, `verify`
+//!   (at point `format`) or `write` (at point `write`) injects that failure for files whose
+//!   final path component equals the name.
+
+#![allow(dead_code)]
+
+use std::collections::VecDeque;
+use std::io::Write;
+use std::path::Path;
+use std::sync::atomic::{AtomicI32, Ordering};
+use std::sync::{Condvar, Mutex};
+use std::time::{Duration, Instant};
+
+struct Sched {
+    order: Option<VecDeque<String>>,
+    log: Option<std::fs::File>,
+}
+
+lazy_static::lazy_static! {
+    static ref SCHED: Mutex<Sched> = Mutex::new(Sched {
+        order: std::env::var("STYLUA_VERIF_SCHED").ok().map(|s| {
+            s.split(',').filter(|l| !l.is_empty()).map(|l| l.to_string()).collect()
+        }),
+        log: std::env::var("STYLUA_VERIF_SCHED_LOG").ok().and_then(|p| {
+            std::fs::OpenOptions::new().create(true).append(true).open(p).ok()
+        }),
+    });
+    static ref SCHED_CV: Condvar = Condvar::new();
+    static ref SCHED_TIMEOUT: Duration = Duration::from_millis(
+        std::env::var("STYLUA_VERIF_SCHED_TIMEOUT_MS")
+            .ok()
+            .and_then(|s| s.parse().ok())
+            .unwrap_or(1000),
+    );
+}
+
+fn thread_tag() -> &'static str {
+    match std::thread::current().name() {
+        Some("main") => "main",
+        _ => "w",
+    }
+}
+
+/// Runs `access` as one atomic step at the schedule point labelled `<thread>:<op>`
+fn schedule_point<T: std::fmt::Debug>(op: String, access: impl FnOnce() -> T) -> T {
+    let label = format!("{}:{}", thread_tag(), op);
+    let mut guard = SCHED.lock().unwrap_or_else(|e| e.into_inner());
+    let deadline = Instant::now() + *SCHED_TIMEOUT;
+    loop {
+        let state = match &guard.order {
+            None => 0,
+            Some(order) => {
+                if order.front() == Some(&label) {
+                    1
+                } else if order.contains(&label) {
+                    2
+                } else {
+                    0
+                }
+            }
+        };
+        match state {
+            0 => break,
+            1 => {
+                guard.order.as_mut().unwrap().pop_front();
+                break;
+            }
+            _ => {
+                let now = Instant::now();
+                if now >= deadline {
+                    eprintln!("VERIF-SCHED-INFEASIBLE waiting={label}");
+                    guard.order = None;
+                    break;
+                }
+                let (g, _) = SCHED_CV
+                    .wait_timeout(guard, deadline - now)
+                    .unwrap_or_else(|e| e.into_inner());
+                guard = g;
+            }
+        }
+    }
+    // The access itself happens under the lock, so the logged order is the real order
+    let result = access();
+    if let Some(log) = guard.log.as_mut() {
+        let _ = writeln!(log, "{label} -> {result:?}");
+    }
+    drop(guard);
+    SCHED_CV.notify_all();
+    result
+}
+
+/// An [`AtomicI32`] whose operations are schedule points
+pub struct SchedAtomicI32 {
+    inner: AtomicI32,
+}
+
+impl SchedAtomicI32 {
+    pub const fn new(value: i32) -> Self {
+        Self {
+            inner: AtomicI32::new(value),
+        }
+    }
+
+    pub fn load(&self, order: Ordering) -> i32 {
+        schedule_point("load".to_string(), || self.inner.load(order))
+    }
+
+    pub fn store(&self, value: i32, order: Ordering) {
+        schedule_point(format!("store:{value}"), || self.inner.store(value, order))
+    }
+
+    pub fn swap(&self, value: i32, order: Ordering) -> i32 {
+        schedule_point(format!("swap:{value}"), || self.inner.swap(value, order))
+    }
+
+    pub fn fetch_max(&self, value: i32, order: Ordering) -> i32 {
+        schedule_point(format!("max:{value}"), || {
+            self.inner.fetch_max(value, order)
+        })
+    }
+
+    pub fn fetch_or(&self, value: i32, order: Ordering) -> i32 {
+        schedule_point(format!("or:{value}"), || self.inner.fetch_or(value, order))
+    }
+
+    pub fn fetch_add(&self, value: i32, order: Ordering) -> i32 {
+        schedule_point(format!("add:{value}"), || {
+            self.inner.fetch_add(value, order)
+        })
+    }
+
+    pub fn compare_exchange(
+        &self,
+        current: i32,
+        new: i32,
+        success: Ordering,
+        failure: Ordering,
+    ) -> Result<i32, i32> {
+        schedule_point(format!("cas:{current}:{new}"), || {
+            self.inner.compare_exchange(current, new, success, failure)
+        })
+    }
+}
+
+impl std::ops::Deref for SchedAtomicI32 {
+    type Target = AtomicI32;
+
+    fn deref(&self) -> &AtomicI32 {
+        &self.inner
+    }
+}
+
+/// Injects the failure configured in `STYLUA_VERIF_FAULT` for `path` at the named point
+pub fn fault_point(point: &str, path: &Path) -> anyhow::Result<()> {
+    let spec = match std::env::var("STYLUA_VERIF_FAULT") {
+        Ok(spec) => spec,
+        Err(_) => return Ok(()),
+    };
+    let name = match path.file_name().and_then(|n| n.to_str()) {
+        Some(name) => name,
+        None => return Ok(()),
+    };
+    for entry in spec.split(',') {
+        if let Some((file, kind)) = entry.split_once('=') {
+            if file != name {
+                continue;
+            }
+            match (point, kind) {
+                ("format", "panic") => panic!("verif-hooks: injected formatter crash for {}", name),
+                ("format", "verify") => {
+                    return Err(anyhow::Error::new(
+                        stylua_lib::Error::VerificationAstDifference,
+                    )
+                    .context(format!("could not format file {}", path.display())))
+                }
+                ("write", "write") => {
+                    return Err(anyhow::Error::new(std::io::Error::new(
+                        std::io::ErrorKind::PermissionDenied,
+                        "verif-hooks: injected write failure",
+                    ))
+                    .context(format!("could not write to {}", path.display())))
+                }
+                _ => (),
+            }
+        }
+    }
+    Ok(())
+}
